@@ -19,6 +19,10 @@ let dec_val t =
   | "i64" -> VInt64 (z_of_string (after t)) | "u64" -> VUInt64 (z_of_string (after t))
   | "d" -> VDouble (dec_dbl t)
   | "s" -> VString (cstr (dec_str t))
+  (* elements of the narrow column types: carried as the 32-bit integer of the same signedness / as the double of the same value *)
+  | "i8" | "i16" | "c" -> VInt32 (z_of_string (after t))
+  | "u8" | "u16" -> VUInt32 (z_of_string (after t))
+  | "f" -> VDouble (f64_of_bits (Int64.bits_of_float (Int32.float_of_bits (Int32.of_string ("0x" ^ after t)))))
   | _ -> failwith ("bad value " ^ t)
 let dec z = Zar.to_string (zarith_of_z z)
 let enc_val v = match v with
@@ -27,6 +31,15 @@ let enc_val v = match v with
   | VDouble d -> enc_dbl d
   | VString s -> enc_str (ostr s)
   | VNone -> "none"
+(* a value read into a vector<T> with a narrow element type T *)
+let enc_val_as t v = match t, v with
+  | TOther n, (VInt32 z | VUInt32 z) ->
+    (match ostr n with "Int8" -> "i8:" | "Int16" -> "i16:" | "UInt8" -> "u8:" | "UInt16" -> "u16:" | _ -> "?:") ^ dec z
+  | TOther _, VDouble d ->
+    let b = bits_of_f64 d in
+    if Int64.logand b 0x7ff0000000000000L = 0x7ff0000000000000L && Int64.logand b 0xfffffffffffffL <> 0L then "f:7fc00000"
+    else OPrintf.sprintf "f:%08lx" (Int32.bits_of_float (Int64.float_of_bits b))
+  | _, _ -> enc_val v
 let sstr t = cstr (dec_str t)
 let zs = z_of_string
 let rec take n l = if n = 0 then ([], l) else match l with x :: r -> let (a, b) = take (n - 1) r in (x :: a, b) | [] -> failwith "too few tokens"
@@ -50,6 +63,8 @@ let show_answer a = match a with
   | FCells cs -> "[" ^ OStr.concat "" (OLst.map (fun c -> " " ^ enc_cell c) cs) ^ " ]"
   | FCell c -> enc_cell c
   | FStr s -> enc_str (ostr s)
+  | FNums ns -> enc_list dec ns
+  | FStrs ss -> enc_list (fun s -> enc_str (ostr s)) ss
 let show_model r = match r with Ok a -> "OK " ^ show_answer a | Err e -> "ERR " ^ ostr e | UB w -> "UB " ^ ostr w
 let show_spec v = match v with Must a -> "OK " ^ show_answer a | Reject -> "ERR" | Any -> "ANY"
 (* the caller's vector before a column read: the harness fills it with 77 / "~" *)
@@ -57,10 +72,15 @@ let prefill t n =
   let v = (match t with
       | TInt32 -> VInt32 (z_of_int 77) | TUInt32 -> VUInt32 (z_of_int 77) | TInt64 -> VInt64 (z_of_int 77)
       | TUInt64 -> VUInt64 (z_of_int 77) | TDouble -> VDouble (dec_dbl "d:4053400000000000") | TString -> VString (cstr "~")
+      | TOther n -> (match ostr n with "Int8" | "Int16" -> VInt32 (z_of_int 77) | "UInt8" | "UInt16" -> VUInt32 (z_of_int 77)
+                                     | _ -> VDouble (dec_dbl "d:4053400000000000"))
+      | TBad _ -> VInt32 (z_of_int 77)
       | _ -> failwith "bad element type") in
   OLst.init n (fun _ -> v)
 let elt t = match dec_type t with
   | TInt32 | TUInt32 | TInt64 | TUInt64 | TDouble | TString as x -> x
+  | TOther n as x when OLst.mem (ostr n) ["Int8"; "Int16"; "UInt8"; "UInt16"; "Float"] -> x
+  | TBad n as x when ostr n = "Char" -> x
   | _ -> failwith ("bad element type " ^ t)
 (* wcells_n:<route> / wcells_i:<route>: the route is how the harness builds the std::vector<Cell>; the request is the same *)
 let strip_route toks = match toks with
@@ -86,6 +106,8 @@ let parse toks = match strip_route toks with
   | ["rcol_i"; c; t; rs; off; pre] -> FRCol (ByIdx (zs c), elt t, None, rs = "1", zs off, prefill (elt t) (oint_of_string pre))
   | ["rcolc_n"; n; t; k; rs; off; pre] -> FRCol (ByName (sstr n), elt t, Some (zs k), rs = "1", zs off, prefill (elt t) (oint_of_string pre))
   | ["rcolc_i"; c; t; k; rs; off; pre] -> FRCol (ByIdx (zs c), elt t, Some (zs k), rs = "1", zs off, prefill (elt t) (oint_of_string pre))
+  | "colidxs" :: r -> FColIdxs (OLst.map sstr (counted r))
+  | "colnames" :: r -> FColNames (OLst.map zs (counted r))
   | ["colidx"; n] -> FColIdx (sstr n)
   | ["colname"; c] -> FColName (zs c)
   | ["reopen"; "ro"] -> FReopen true
@@ -98,5 +120,10 @@ let handle toks =
   let (m', r) = fstep o !ms in
   let (s', v) = sstep o !ss in
   ms := m'; ss := s';
-  show_model r ^ " ## " ^ show_spec v
+  (* a column read into a narrow vector<T> prints its elements as T *)
+  let narrow = (match o with FRCol (_, (TOther _ as t), _, _, _, _) -> Some t | _ -> None) in
+  let fix a = (match narrow, a with Some t, FVals vs -> "[" ^ OStr.concat "" (OLst.map (fun x -> " " ^ enc_val_as t x) vs) ^ " ]" | _ -> show_answer a) in
+  let sm = (match r with Ok a -> "OK " ^ fix a | Err e -> "ERR " ^ ostr e | UB w -> "UB " ^ ostr w) in
+  let sv = (match v with Must a -> "OK " ^ fix a | Reject -> "ERR" | Any -> "ANY") in
+  sm ^ " ## " ^ sv
 let () = run_file OSys.argv.(1) handle
